@@ -514,6 +514,12 @@ def drop_pipes(net, pipes):
     if "res_pipe" in net.keys():
         res_pipes = net.res_pipe.index.intersection(pipes)
         net["res_pipe"].drop(res_pipes, inplace=True)
+    if "valve" in net.keys() and "et" in net["valve"].columns:
+        # valves attached to the dropped pipes would refer to missing pipes
+        valves = net["valve"].index[(net["valve"]["et"] == "pi") & net["valve"]["element"].isin(pipes)]
+        net["valve"].drop(valves, inplace=True)
+        if "res_valve" in net.keys() and isinstance(net["res_valve"], pd.DataFrame):
+            net["res_valve"].drop(net["res_valve"].index.intersection(valves), inplace=True)
     logger.info("dropped %d pipes" % len(list(pipes)))
 
 
